@@ -534,6 +534,179 @@ def run_case(case):
     return out
 
 
+# ----------------------------------------------------------------------------- histories of several blocks
+
+def run_hist(case):
+    """Several compress / decompress blocks open at the same time.
+
+    case["blocks"]: [{"kind": "dec"|"comp", "name", "tmpdir": "explicit"|"default", "fmtarg", "b"}]
+    case["events"]: [["E", i] | ["U", i] | ["L", i, exc]] -- enter block i (cm.__enter__), use it (decompress: read the
+        yielded path completely; compress: write the content to the yielded path), leave it (cm.__exit__, with an
+        exception of the body if exc).  Events on a block that is not open (and entering an open one) do nothing.
+    case["files"]: files put into the sandbox beforehand: archives / raw files / garbage below work/, bystanders in
+        the two temporary directories.
+    Observed per event: [temporary entries alive (top level of both temporary directories, bystanders not counted),
+        code...] with code = [0] skipped | [1, raised, yielded kind] | [2, 0] the yielded path does not exist |
+        [2, 1, tokens...] | [3] written | [4, raised an exception of its own].
+    """
+    blocks = {k: block_bytes(v) for k, v in case["tokblocks"].items()}
+    cands = {}
+
+    def reg(tokens):
+        data = concat(tokens, blocks)
+        if data in cands and cands[data] != list(tokens):
+            raise ValueError("ambiguous contents")
+        cands[data] = list(tokens)
+        return data
+
+    sb = tempfile.mkdtemp(prefix="verif_c12_")
+    out = {"id": case["id"]}
+    old_tempdir = tempfile.tempdir
+    open_cms = {}
+    try:
+        work = os.path.join(sb, "work")
+        t_exp = os.path.join(sb, "tmp_explicit")
+        t_def = os.path.join(sb, "tmp_default")
+        for d in (work, t_exp, t_def):
+            os.mkdir(d)
+        tempfile.tempdir = t_def
+        roots = {"work": work, "explicit": t_exp, "default": t_def}
+        for bl in case["blocks"]:
+            if bl["kind"] == "comp":
+                reg(bl["b"])
+                os.makedirs(os.path.dirname(os.path.join(work, bl["name"])), exist_ok=True)
+        nby = 0
+        watched = []
+        for fl in case["files"]:
+            path = os.path.join(roots[fl["where"]], fl["path"])
+            os.makedirs(os.path.dirname(path), exist_ok=True)
+            if fl["where"] != "work":
+                nby += 1
+            if fl["kind"] == "archive":
+                std_write(fl["fmt"], path, fl["member"], reg(fl["tokens"]))
+                r = std_read(fl["fmt"], path)
+                if r is None or r[0] != concat(fl["tokens"], blocks):
+                    raise ValueError("the standard library does not read back its own archive")
+            elif fl["kind"] == "raw":
+                with builtins.open(path, "wb") as f:
+                    f.write(reg(fl["tokens"]))
+            elif fl["kind"] == "garbage":
+                with builtins.open(path, "wb") as f:
+                    f.write(random.Random(case["id"]).randbytes(100))
+                if fl.get("read_fmt") in ("gz", "bz2", "zip", "xz") and std_read(fl["read_fmt"], path) is not None:
+                    raise ValueError("garbage is an archive")
+            else:
+                raise ValueError(fl["kind"])
+            if fl.get("watch"):
+                watched.append((path, read_or_none(path)))
+
+        def count():
+            return listing(t_exp, t_def) - nby
+
+        codes = []
+        for ev in case["events"]:
+            op, i = ev[0], ev[1]
+            bl = case["blocks"][i] if 0 <= i < len(case["blocks"]) else None
+            if op == "E":
+                if i in open_cms or bl is None:
+                    code = [0]
+                else:
+                    name = os.path.join(work, bl["name"])
+                    tdir = {"explicit": t_exp, "default": None}[bl["tmpdir"]]
+                    try:
+                        if bl["kind"] == "dec":
+                            cm = U.decompress(name, tmpdir=tdir)
+                        else:
+                            cm = U.compress(name, fmt=bl.get("fmtarg"), tmpdir=tdir)
+                        y = cm.__enter__()
+                    except BaseException as e:  # noqa
+                        code = [1, 1, 0]
+                        e = None
+                    else:
+                        if y == name:
+                            kind = 1
+                        elif bl["kind"] == "dec" and os.path.dirname(y) == (tdir or t_def):
+                            kind = 2
+                        elif bl["kind"] == "comp" and os.path.dirname(os.path.dirname(y)) == (tdir or t_def):
+                            kind = 2
+                        else:
+                            kind = 9
+                        open_cms[i] = (cm, y)
+                        code = [1, 0, kind]
+            elif op == "U":
+                if i not in open_cms:
+                    code = [0]
+                else:
+                    cm, y = open_cms[i]
+                    if bl["kind"] == "dec":
+                        try:
+                            with builtins.open(y, "rb") as h:
+                                data = h.read()
+                        except OSError:
+                            code = [2, 0]
+                        else:
+                            code = [2, 1] + tokens_of(data, cands)
+                    else:
+                        try:
+                            with builtins.open(y, "wb") as h:
+                                h.write(concat(bl["b"], blocks))
+                            code = [3]
+                        except OSError:
+                            code = [3, 1]
+            elif op == "L":
+                if i not in open_cms:
+                    code = [0]
+                else:
+                    cm, y = open_cms.pop(i)
+                    if ev[2]:
+                        try:
+                            raise Injected("injected fault in the block")
+                        except Injected as e:
+                            try:
+                                swallowed = cm.__exit__(type(e), e, e.__traceback__)
+                                code = [4, 2] if swallowed else [4, 0]
+                            except BaseException as e2:  # noqa
+                                code = [4, 0] if e2 is e else [4, 1]
+                                e2 = None
+                    else:
+                        try:
+                            cm.__exit__(None, None, None)
+                            code = [4, 0]
+                        except BaseException as e2:  # noqa
+                            code = [4, 1]
+                            e2 = None
+            else:
+                raise ValueError(op)
+            codes.append([count()] + code)
+        out["codes"] = codes
+        out["watch"] = [[int(os.path.exists(p)), int(read_or_none(p) == before)] for p, before in watched]
+        targets = []
+        for bl in case["blocks"]:
+            if bl["kind"] != "comp":
+                continue
+            path = os.path.join(work, bl["name"])
+            dec = None
+            if os.path.exists(path) and bl["fmt_eff"] in ("gz", "bz2", "zip", "xz"):
+                r = std_read(bl["fmt_eff"], path)
+                if r is not None:
+                    dec = tokens_of(r[0], cands)
+            targets.append(dec)
+        out["targets"] = targets
+        out["left_open"] = sorted(open_cms)
+    except BaseException as e:  # noqa  -- the harness itself failed
+        import traceback
+        out["error"] = "harness: " + traceback.format_exc()[-800:]
+    finally:
+        for cm, _y in list(open_cms.values()):
+            try:
+                cm.__exit__(None, None, None)
+            except BaseException:  # noqa
+                pass
+        tempfile.tempdir = old_tempdir
+        shutil.rmtree(sb, ignore_errors=True)
+    return out
+
+
 def main():
     global U
     sys.stderr = io.StringIO()      # "Exception ignored in __del__" noise of abandoned writers
@@ -541,7 +714,7 @@ def main():
     U = utils
     cases = json.loads(builtins.open(sys.argv[1]).read())
     table = sorted(str(k) for k in U._known_compressions)
-    res = [run_case(c) for c in cases]
+    res = [run_hist(c) if c.get("hist") else run_case(c) for c in cases]
     sys.stdout.write(json.dumps({"table": table, "file": os.path.abspath(utils.__file__), "results": res}))
 
 
